@@ -169,6 +169,12 @@ def _mk(nrng, N, cplx, kind, exact):
 
 
 def gen(rng, nrng, tier):
+    for N in ((256, 300) if tier == "quick" else (256, 257, 300, 513, 1000)):   # long records
+        for cplx in (False, True):
+            x = _mk(nrng, N, cplx, "tone", False)
+            order = int(nrng.integers(2, 13))
+            if _well_conditioned(x, order):
+                yield ("burg", {"x": x, "order": order, "crit": [None, "AIC", "MDL"][N % 3], "exact": False, "dkind": "tone", "q": 1})
     n = 220 if tier == "quick" else 3000
     kinds = ["noise", "tone", "int", "zerointer", "trend"]
     skipped = 0
